@@ -329,7 +329,7 @@ pub fn xform_case(data: &[u8]) -> XformCase {
         }
         _ => crate::gen::idx_map(traw, size),
     };
-    let ssel = r.below(5);
+    let ssel = r.below(6);
     let sraw = r.u16();
     let pos = if ssel == 1 { pos_raw / 4 * size.min(64) } else { pos_raw };
     let max_delta = 65536 - size;
@@ -338,6 +338,11 @@ pub fn xform_case(data: &[u8]) -> XformCase {
         1 => (pos + size).min(max_delta) / size * size,
         2 => max_delta,
         3 => crate::gen::idx_map(sraw, max_delta / size) * size,
+        5 => {
+            let a = 2 + (sraw as u32 % 15);
+            let b = (sraw as u32 >> 8) % (a - 1);
+            ((1usize << a) - 3 * (1usize << b)).min(max_delta)
+        }
         _ => crate::gen::idx_map(sraw, max_delta),
     };
     XformCase { which, size_log, pos, after, blocks, trunc, skew_delta, zero_tail: r.bool(), seed: r.u64() }
